@@ -6,7 +6,7 @@ Open Scope Z_scope.
 
 (* computed facts about the constants *)
 Lemma rZ_lt : 0 < rZ < 256 ^ 32. Proof. vm_compute. split; reflexivity. Qed.
-Lemma pZ_lt : 2 < pZ < 256 ^ 48. Proof. vm_compute. split; reflexivity. Qed.
+Lemma pZ_lt : 1000 < pZ < 256 ^ 48. Proof. vm_compute. split; reflexivity. Qed.
 Lemma pZ_odd : pZ mod 2 = 1. Proof. vm_compute. reflexivity. Qed.
 Lemma pZ_mod3 : (pZ - 1) mod 3 = 0. Proof. vm_compute. reflexivity. Qed.
 (* -4 is not a cube in F_p: (-4)^((p-1)/3) <> 1 *)
@@ -95,8 +95,9 @@ Lemma rhs_Z x : 0 <= x < pZ ->
 Proof.
   intro Hx. pose proof pZ_lt as Hp.
   unfold fadd, fmul, b1. rewrite madd_Z, !mmul_Z. cbn [n_of_Z ZNum].
-  rewrite Z.add_mod_idemp_l by lia. rewrite Z.mul_mod_idemp_l by lia.
-  f_equal. ring.
+  assert (E : ((x * x) mod pZ * x) mod pZ = (x ^ 3) mod pZ).
+  { rewrite Z.mul_mod_idemp_l by lia. f_equal. ring. }
+  rewrite E. rewrite Z.add_mod_idemp_l by lia. reflexivity.
 Qed.
 
 Lemma rhs_nonzero x : 0 <= x < pZ -> (x ^ 3 + 4) mod pZ <> 0.
@@ -170,7 +171,8 @@ Proof.
     rewrite fp_read_spec. rewrite set_hd_length.
     cbn [set_hd]. cbn [length] in El |- *. rewrite (proj2 (Nat.eqb_eq _ _) El). cbn [negb].
     pose proof (hdr_aff_sweep h Hh) as Hs. unfold hdr_aff_ok in Hs.
-    rewrite E7, E6 in Hs. cbn [N.eqb andb implb] in Hs. rewrite N.eqb_refl in Hs. cbn [andb implb] in Hs.
+    rewrite E7, E6 in Hs. change ((1 =? 1)%N) with true in Hs. change ((0 =? 0)%N) with true in Hs.
+    cbn [andb implb] in Hs.
     apply andb_prop in Hs as [Hs1 Hs2]. apply N.eqb_eq in Hs1. apply N.ltb_lt in Hs2.
     set (h' := N.land h 31) in *.
     assert (Hw' : wf (h' :: t)) by (constructor; assumption).
@@ -182,7 +184,7 @@ Proof.
     pose proof pZ_lt as Hp.
     destruct (fsqrt_Z _ _ Es ltac:(apply Z.mod_pos_bound; lia)) as [Hy Hyy].
     assert (Hy0 : y <> 0).
-    { intro; subst y. cbn in Hyy. rewrite Z.mod_0_l in Hyy by lia.
+    { intro; subst y. change (0 * 0) with 0 in Hyy. rewrite Z.mod_0_l in Hyy by lia.
       apply (rhs_nonzero Hpr x); [lia|]. symmetry. exact Hyy. }
     intro H. inversion H; subst P. clear H.
     unfold encode_e1, e1_write_bytes, fp_write_bytes. change Fp_BYTES with 48%nat.
@@ -190,17 +192,20 @@ Proof.
     { change (i2osp ZNum 48 x) with (i2Z 48 x). unfold x. cbn [length] in El.
       replace 48%nat with (length (h' :: t)) by (cbn [length]; exact El). apply i2Z_osZ. exact Hw'. }
     rewrite Ei. cbn [hd0 set_hd]. f_equal.
-    rewrite <- Hs1 at 2. f_equal. f_equal.
-    set (s := (N.land (N.shiftr h 5) 1 =? 1)%N).
-    destruct (Bool.eqb (fsign ZNum y) s) eqn:Eb.
-    + apply eqb_prop in Eb. rewrite Eb. reflexivity.
-    + rewrite fsign_neg by lia. apply eqb_false_iff in Eb.
-      destruct (fsign ZNum y), s; cbn; try reflexivity; congruence.
+    set (s := (N.land (N.shiftr h 5) 1 =? 1)%N) in *.
+    assert (Esg : fsign ZNum (if Bool.eqb (fsign ZNum y) s then y else fneg ZNum pZ y) = s).
+    { destruct (Bool.eqb (fsign ZNum y) s) eqn:Eb.
+      - apply eqb_prop in Eb. exact Eb.
+      - rewrite fsign_neg by lia. apply eqb_false_iff in Eb.
+        destruct (fsign ZNum y), s; cbn; try reflexivity; congruence. }
+    transitivity (N.lor (N.lor h' (if fsign ZNum (if Bool.eqb (fsign ZNum y) s then y else fneg ZNum pZ y) then 32%N else 0%N)) 128); [reflexivity|].
+    rewrite Esg. exact Hs1.
   - (* infinity *)
     pose proof (hdr_inf_sweep h Hh) as Hs. unfold hdr_inf_ok in Hs.
-    rewrite E7 in Hs. cbn [N.eqb] in Hs.
+    rewrite E7 in Hs. change ((1 =? 1)%N) with true in Hs.
     destruct (N.eqb_spec (N.land h 0x3F) 0) as [E5|E5]; cbn [negb]; [|discriminate].
-    rewrite (proj2 (N.eqb_neq _ _) E6) in Hs. rewrite E5 in Hs. cbn in Hs. apply N.eqb_eq in Hs. subst h.
+    rewrite (proj2 (N.eqb_neq _ _) E6) in Hs.
+    cbn [andb negb implb] in Hs. apply N.eqb_eq in Hs. subst h.
     destruct (all_zero t) eqn:Ez; [|discriminate].
     intro H. inversion H; subst P. clear H.
     unfold encode_e1, e1_write_bytes. change G1_SER_BYTES with 48%nat.
